@@ -1,6 +1,6 @@
 (* C16 -- the statements exported to Properties_C16.v, in self-contained form. *)
 From Coq Require Import List NArith Bool Arith Lia.
-From Gatery Require Import StreamDefs StreamSpec StreamCompose StreamStages StreamHold StreamChain StreamLive StreamRefute.
+From Gatery Require Import StreamDefs StreamSpec StreamCompose StreamStages StreamHold StreamPacket StreamChain StreamLive StreamRefute.
 Import ListNotations.
 
 (* ------------------------------------------------------------------ per stage *)
@@ -134,3 +134,56 @@ Qed.
 Lemma pack_groups_l : forall r gs, 1 <= r -> Forall (fun g => length g = r) gs ->
   pack r (concat gs) = map mkpacked gs.
 Proof. intros r gs H F. apply (pack_groups r gs H F). Qed.
+
+(* ------------------------------------------------------------------ Packet.h width converters *)
+Lemma widthExtend_transfers_l : forall m r cs,
+  Tout (trace (pextendS m r) cs) = ppack m r (Tin (trace (pextendS m r) cs)).
+Proof. exact pextend_transfers_eq. Qed.
+
+Lemma widthExtend_keeps_packet_boundaries_l : forall m r cs,
+  map xmeta (filter xeop (Tout (trace (pextendS m r) cs))) = map xmeta (filter xeop (Tin (trace (pextendS m r) cs))).
+Proof. intros. rewrite pextend_transfers_eq. apply ppack_keeps_eops. Qed.
+
+Lemma widthExtend_hold_l : forall m r cs,
+  holdW (inW (trace (pextendS m r) cs)) -> holdW (outW (trace (pextendS m r) cs)).
+Proof.
+  intros m r cs. apply (holdC_traceFrom _ _ (pextend_HoldC m r)).
+  clear. generalize (init (pextendS m r)). induction cs as [|c1 [|c2 cs] IH]; intro s; simpl; auto.
+  split; [exact I|]. apply IH.
+Qed.
+
+Lemma widthReduce_is_reduceWidth_l : forall r cs, 1 <= r ->
+  holdW (inW (trace (preduceS r) cs)) ->
+  trace (preduceS r) cs = trace (reduceS r) cs /\
+  snd (after (preduceS r) cs) = S (fst (after (preduceS r) cs)) /\ fst (after (preduceS r) cs) < r.
+Proof.
+  intros r cs H HE. split; [apply (pre_red_sim r H cs HE) | apply (preduce_sentBits r H cs HE)].
+Qed.
+
+Lemma widthReduce_transfers_l : forall r cs, 1 <= r ->
+  holdW (inW (trace (preduceS r) cs)) ->
+  exists pend, Tout (trace (preduceS r) cs) = unpack r (Tin (trace (preduceS r) cs)) ++ pend /\ length pend < r.
+Proof. intros r cs H HE. apply preduce_transfers_eq; assumption. Qed.
+
+Lemma widthReduce_safe_l : forall r cs c, 1 <= r ->
+  holdW (inW (trace (preduceS r) (cs ++ [c]))) ->
+  prefix (Tout (trace (preduceS r) cs) ++ offout (evAt (preduceS r) (after (preduceS r) cs) c))
+         (unpack r (Tin (trace (preduceS r) cs) ++ offin (evAt (preduceS r) (after (preduceS r) cs) c))).
+Proof. intros r cs c H HE. destruct (preduce_Good r H) as [S _]. apply S, HE. Qed.
+
+Lemma widthReduce_hold_l : forall r cs,
+  holdW (inW (trace (preduceS r) cs)) -> holdW (outW (trace (preduceS r) cs)).
+Proof.
+  intros r cs. apply (holdC_traceFrom _ _ (preduce_HoldC r)).
+  clear. generalize (init (preduceS r)). induction cs as [|c1 [|c2 cs] IH]; intro s; simpl; auto.
+  split; [exact I|]. apply IH.
+Qed.
+
+Lemma matchWidth_cases_l : forall m t,
+  (m < t -> matchD m t = DPExtend m (t / m)) /\ (t < m -> matchD m t = DPReduce (m / t)) /\ (m = t -> matchD m t = DDelay 0).
+Proof.
+  intros m t. unfold matchD. repeat split; intro H.
+  - apply Nat.ltb_lt in H. now rewrite H.
+  - assert (Nat.ltb m t = false) by (apply Nat.ltb_ge; lia). apply Nat.ltb_lt in H. now rewrite H0, H.
+  - subst. now rewrite Nat.ltb_irrefl.
+Qed.
